@@ -24,7 +24,7 @@ ASSUMPTIONS = ["set members as delete targets are outside the reference evaluato
 REACH = [("yamlpath/processor.py", "delete_nodes,_delete_nodes", "delete_nodes / _delete_nodes")]
 SIZES = {"quick": 40000, "thorough": 800000}
 REQUIRED_COUNTERS = ["delete_steps", "delete_root_steps", "delete_steps_double_match", "reload_checked", "long_list_cases",
-                     "root_in_collector_cases", "delete_collector_slice_operands"]
+                     "root_in_collector_cases", "delete_collector_slice_operands", "docs_with_aliased_containers"]
 
 SEEDS = [
     ("[a, [], b]", [("INDEX", 1)]), ("{a: {}, b: 1}", [("KEY", "a")]), ("[a, b, c]", [("ALL",)]),
@@ -231,6 +231,9 @@ def run_shard(ctx):
         elif x < 0.35:
             text, _ = gd.gen_doc(rng, "N", keys=gd.KEYS_TWIN)      # sibling keys 1 / '1', 1.5 / '1.5', true / 'true'
             ctx.count("docs_with_twin_keys")
+        elif x < 0.42:
+            text = gd.gen_aliased_container_doc(rng)               # one container object reachable at two paths
+            ctx.count("docs_with_aliased_containers")
         else:
             text, _ = gd.gen_doc(rng, rng.choice(["N", "U", "A"]))
         try:
